@@ -640,3 +640,74 @@ func init() {
 		return sched.Config{Bounds: sched.Bounds{}, MaxSteps: 100000}, c18queuedBody
 	}})
 }
+
+// ---------------------------------------------------------------------------
+// C18 (I) a node that hands back the cursor it was asked with (and keys), once or twice, before it moves on: the
+// statement quantifies over all per-node cursor sequences.
+//
+// alphabet  node 0: cursors 0 -> c -> c (-> c) -> 0 for c in {1, 7, 2^47}; the repetition on the first | on the only
+//           other node; with and without MATCH
+// oracle    the iteration ends with cursor 0 within 12 calls, every key of every step is returned
+// ---------------------------------------------------------------------------
+
+func c18repeatedCursorBody() {
+	c0 := []string{"1", "7", "140737488355328"}[sched.Choose(sched.ClsInput, 3, "cursor")]
+	repeats := 1 + sched.Choose(sched.ClsInput, 2, "repetitions")
+	on := sched.Choose(sched.ClsInput, 2, "node")
+	withMatch := sched.Choose(sched.ClsInput, 2, "MATCH") == 1
+	cl := cluster.New(2, 0, 2)
+	other := 1 - on
+	later := []cluster.ScanStep{}
+	want := map[string]bool{"r:0": true, "r:1": true, "o:0": true}
+	for i := 1; i < repeats; i++ {
+		k := fmt.Sprintf("r:%d", i+1)
+		later = append(later, cluster.ScanStep{Next: c0, Keys: []string{k}})
+		want[k] = true
+	}
+	later = append(later, cluster.ScanStep{Next: "0", Keys: []string{"r:last"}})
+	want["r:last"] = true
+	cl.Nodes[on].ScanChain = map[string]cluster.ScanStep{"0": {Next: c0, Keys: []string{"r:0"}}, c0: {Next: c0, Keys: []string{"r:1"}}}
+	cl.Nodes[on].ScanLater = map[string][]cluster.ScanStep{c0: later}
+	cl.Nodes[other].ScanChain = map[string]cluster.ScanStep{"0": {Next: "0", Keys: []string{"o:0"}}}
+	s := vfStartStack(cl, vfSvcConfig(0, nil, 0))
+	c := s.NewClient("c0")
+	cursor := "0"
+	got := map[string]bool{}
+	var cursors []string
+	for step := 0; step < 12; step++ {
+		args := []string{"SCAN", cursor}
+		if withMatch {
+			args = append(args, "MATCH", "*")
+		}
+		v, err := c.Do(args...)
+		if err != nil || v.Kind != '*' || len(v.Arr) != 2 {
+			sched.Fail("scan-reply-shape / repeated node cursor", fmt.Sprintf("SCAN %s -> %s %v", cursor, v, err))
+			return
+		}
+		for _, k := range v.Arr[1].Arr {
+			got[string(k.Str)] = true
+		}
+		cursor = string(v.Arr[0].Str)
+		cursors = append(cursors, cursor)
+		if cursor == "0" {
+			break
+		}
+	}
+	tag := fmt.Sprintf("node %d answers cursor %s with cursor %s %d time(s) before it moves on", on, c0, c0, repeats)
+	if cursor != "0" {
+		sched.Fail("iteration-does-not-terminate / repeated node cursor", fmt.Sprintf("%s: cursors handed to the client: %v", tag, cursors))
+	}
+	for k := range want {
+		if !got[k] {
+			sched.Fail("keys-never-returned / repeated node cursor", fmt.Sprintf("%s: key %s was never returned; cursors handed to the client: %v", tag, k, cursors))
+			break
+		}
+	}
+	sched.SetOutcome(fmt.Sprint(repeats))
+}
+
+func init() {
+	sched.Register(&sched.Scenario{Name: "C18/repeated-cursor", Setup: func(tier string) (sched.Config, func()) {
+		return sched.Config{Bounds: sched.Bounds{}, MaxSteps: 100000}, c18repeatedCursorBody
+	}})
+}
